@@ -141,6 +141,60 @@ def final_kernel(ctx):
         ctx.check(ok, "AGREE", gn.key, "R==G*k", "generate_nonce must return (k, G*k) for one drawn k", gn.loc)
 
 
+def lagrange_kernel(ctx):
+    """per-factor form of the Lagrange coefficient: with x given, num *= (x - x_j), den *= (x_i - x_j) (RFC 9591 §4.2 /
+    the library's documented basis polynomial); the x = None arm must equal the other arm evaluated at x = 0 as a
+    rational function; result = num * invert(den)."""
+    P = ctx.prog
+    f = ctx.anchor(CORE + "compute_lagrange_coefficient")
+    if not f:
+        return
+    v = FnView.get(P, f)
+    names = {n: l for l, n in f.var_names().items()}
+    loops = f.loops()
+    if "num" not in names or "den" not in names or not loops:
+        ctx.violation("H", f.key, "lagrange-kernel:shape", "num/den accumulators not found", f.loc)
+        return
+    hdr = frozenset({loops[0]["header"]})
+    given = lambda fa: (("pass" if fa[2] else "fail") if fa[0] == "succ" and fa[1] == ("arg", 2) else None)
+    item = next_item(lambda t: mentions(t, arg(1)))
+    leaves = [(lambda t: t[0] == "loopvar" and t[2] == names["num"], ("scal", "n")), (lambda t: t[0] == "loopvar" and t[2] == names["den"], ("scal", "d")),
+              (lambda t: strip_newtype_fields(t) == ("some", ("arg", 2)) and t != ("some", ("arg", 2)), ("scal", "x")),
+              (lambda t: strip_newtype_fields(t) == ("arg", 3) and t != ("arg", 3), ("scal", "xi")),
+              (lambda t: t != strip_newtype_fields(t) and item(strip_newtype_fields(t)), ("scal", "xj"))]
+    try:
+        al = Alg(leaves)
+        arms = {}
+        for nm in ("num", "den"):
+            d = defs_by_arm(f, v, names[nm], given, stop=hdr)
+            if len(d["pass"]) != 1 or len(d["fail"]) != 1:
+                raise Unanalysable("%s is not updated exactly once in each arm of `if let Some(x) = x`" % nm)
+            arms[nm] = (al.val(d["pass"][0])[1], al.val(d["fail"][0])[1])
+    except Unanalysable as e:
+        ctx.violation("H", f.key, "lagrange-kernel:unanalysable", "Lagrange update not analysable: %s" % e, f.loc)
+        return
+    sym, pm, pa = algebra.sym, algebra.pmul, algebra.padd
+    want_num = pm(sym("n"), pa(sym("x"), sym("xj"), -1))
+    want_den = pm(sym("d"), pa(sym("xi"), sym("xj"), -1))
+    ctx.check(arms["num"][0] == want_num and arms["den"][0] == want_den, "AGREE", f.key, "factor==(x-x_j)/(x_i-x_j)",
+              "with an evaluation point the Lagrange factor must be (x - x_j)/(x_i - x_j): found num' = %s, den' = %s"
+              % (show(("scal", arms["num"][0])), show(("scal", arms["den"][0]))), f.loc)
+    # None arm == Some arm at x = 0 (as rational functions): numS(0)*denN - numN*denS == 0
+    numS0 = algebra.psubst(arms["num"][0], {"x": ("scal", {})})
+    lhs = pm(numS0, arms["den"][1])
+    rhs = pm(arms["num"][1], arms["den"][0])
+    ctx.check(not pa(lhs, rhs, -1), "AGREE", f.key, "x=None-arm==x=0",
+              "the x = None arm of the Lagrange coefficient (num' = %s, den' = %s) is not the general arm evaluated at 0"
+              % (show(("scal", arms["num"][1])), show(("scal", arms["den"][1]))), f.loc)
+    oks = [v.cx.operand(rv["ops"][0]) for (b, k, rv) in ret_writes(f) if k == "ok"]
+    good = len(oks) == 1 and is_call(oks[0], name="mul") and oks[0][2][0][0] == "phi" and oks[0][2][0][1][1] == names["num"] and \
+        oks[0][2][1][0] == "ok" and is_call(oks[0][2][1][1][1] if oks[0][2][1][1][0] == "map_err" else oks[0][2][1][1], name="invert")
+    if good:
+        inv = oks[0][2][1][1][1] if oks[0][2][1][1][0] == "map_err" else oks[0][2][1][1]
+        good = inv[2][0][0] == "phi" and inv[2][0][1][1] == names["den"]
+    ctx.check(good, "AGREE", f.key, "result==num*invert(den)", "the coefficient must be num * den^-1", f.loc)
+
+
 def roles(ctx):
     P = ctx.prog
     specs = [
@@ -311,6 +365,7 @@ def run(ctx):
         edges = {e for (e, fa) in v.facts if m(fa) == "pass"}
         ctx.check(bool(zb) and bool(edges) and not sep(f, edges, zb), "SEP", key, "equal-length-before-zip",
                   "scalars and points are zipped without the equal-length refusal: a missing point would silently drop a term", f.loc)
+    lagrange_kernel(ctx)
     # (2) role agreement
     roles(ctx)
     # (3) kernels
